@@ -16,34 +16,34 @@ set_option linter.unusedSectionVars false
 def SortedInv (sorted : List (List Nat)) (base : List Nat) : Prop :=
   base.Nodup ∧ sorted ≠ [] ∧ ∀ l ∈ sorted, l.Perm base
 
-theorem filter_mem_take {ax : List Nat} (h : ax.Nodup) (mid : Nat) :
-    ax.filter (fun id => (ax.take mid).contains id) = ax.take mid ∧
-    ax.filter (fun id => !(ax.take mid).contains id) = ax.drop mid := by
-  have hsplit : ax = ax.take mid ++ ax.drop mid := (List.take_append_drop mid ax).symm
-  have hdis : ∀ x ∈ ax.take mid, x ∉ ax.drop mid := by
-    intro x hx hx'
-    rw [hsplit] at h
-    exact (List.nodup_append.1 h).2.2 x hx x hx' rfl
+theorem filter_mem_append (T D : List Nat) (h : (T ++ D).Nodup) :
+    (T ++ D).filter (fun id => T.contains id) = T ∧ (T ++ D).filter (fun id => !T.contains id) = D := by
+  have hdis : ∀ x ∈ T, x ∉ D := fun x hx hx' => (List.nodup_append.1 h).2.2 x hx x hx' rfl
   constructor
-  · conv_lhs => rw [hsplit]
-    rw [List.filter_append]
-    have h1 : (ax.take mid).filter (fun id => (ax.take mid).contains id) = ax.take mid := by
+  · rw [List.filter_append]
+    have h1 : T.filter (fun id => T.contains id) = T := by
       apply List.filter_eq_self.2; intro a ha; simpa using ha
-    have h2 : (ax.drop mid).filter (fun id => (ax.take mid).contains id) = [] := by
+    have h2 : D.filter (fun id => T.contains id) = [] := by
       apply List.filter_eq_nil_iff.2; intro a ha hc
       exact hdis a (by simpa using hc) ha
     rw [h1, h2, List.append_nil]
-  · conv_lhs => rw [hsplit]
-    rw [List.filter_append]
-    have h1 : (ax.take mid).filter (fun id => !(ax.take mid).contains id) = [] := by
+  · rw [List.filter_append]
+    have h1 : T.filter (fun id => !T.contains id) = [] := by
       apply List.filter_eq_nil_iff.2; intro a ha hc
       simp only [Bool.not_eq_true', List.contains_eq_mem, decide_eq_false_iff_not] at hc
       exact hc ha
-    have h2 : (ax.drop mid).filter (fun id => !(ax.take mid).contains id) = ax.drop mid := by
+    have h2 : D.filter (fun id => !T.contains id) = D := by
       apply List.filter_eq_self.2; intro a ha
       simp only [Bool.not_eq_true', List.contains_eq_mem, decide_eq_false_iff_not]
       exact fun hc => hdis a hc ha
     rw [h1, h2, List.nil_append]
+
+theorem filter_mem_take {ax : List Nat} (h : ax.Nodup) (mid : Nat) :
+    ax.filter (fun id => (ax.take mid).contains id) = ax.take mid ∧
+    ax.filter (fun id => !(ax.take mid).contains id) = ax.drop mid := by
+  have := filter_mem_append (ax.take mid) (ax.drop mid) (by rw [List.take_append_drop]; exact h)
+  rw [List.take_append_drop] at this
+  exact this
 
 theorem getD_of_ne_nil {sorted : List (List Nat)} {base : List Nat} (h : SortedInv sorted base)
     (axis : Nat) (ha : axis < sorted.length) : (sorted.getD axis []).Perm base := by
@@ -66,7 +66,7 @@ theorem splitBounders_inv {sorted : List (List Nat)} {base : List Nat} (h : Sort
   refine ⟨⟨hndax.sublist (List.take_sublist _ _), ?_, ?_⟩, ⟨hndax.sublist (List.drop_sublist _ _), ?_, ?_⟩, ?_, ?_⟩
   · intro hnil
     have := congrArg List.length hnil
-    simp at this; omega
+    simp only [List.length_map, List.length_zipIdx, List.length_nil] at this; omega
   · intro l hl
     simp only [List.mem_map] at hl
     obtain ⟨pr, ⟨⟨l0, i⟩, hmem, rfl⟩, rfl⟩ := hl
@@ -82,7 +82,7 @@ theorem splitBounders_inv {sorted : List (List Nat)} {base : List Nat} (h : Sort
       exact (hl0.filter _).trans (by rw [f1])
   · intro hnil
     have := congrArg List.length hnil
-    simp at this; omega
+    simp only [List.length_map, List.length_zipIdx, List.length_nil] at this; omega
   · intro l hl
     simp only [List.mem_map] at hl
     obtain ⟨pr, ⟨⟨l0, i⟩, hmem, rfl⟩, rfl⟩ := hl
@@ -210,7 +210,8 @@ theorem three_way_perm (base : List Nat) (hnd : base.Nodup) (split : Nat) (hs : 
       (base.filter (fun c => c != split)) := by
     rw [← h1, ← h2]; exact List.filter_append_perm _ _
   have heq : base.filter (fun c => !(c != split)) = [split] := by
-    have : (fun c => !(c != split)) = (fun c => c == split) := by funext c; simp
+    have : (fun c => !(c != split)) = (fun c => c == split) := by
+      funext c; cases hcs : (c == split) <;> simp [bne, hcs]
     rw [this]
     have hc : base.count split = 1 := List.count_eq_one_of_mem hnd hs
     have : base.filter (fun c => c == split) = List.replicate (base.count split) split := by
@@ -259,7 +260,10 @@ theorem kdBuild_spec (dim : Nat) (cv : Nat → Nat → α) :
           -- the split point is a member
           have hidx : (coords.getD axis []).length / 2 < (coords.getD axis []).length := by omega
           have hsm : (coords.getD axis []).getD ((coords.getD axis []).length / 2) 0 ∈ base := by
-            rw [List.getD_eq_getElem _ _ hidx]
+            have : (coords.getD axis []).getD ((coords.getD axis []).length / 2) 0 =
+                (coords.getD axis [])[(coords.getD axis []).length / 2] := by
+              rw [List.getD_eq_getElem?_getD, List.getElem?_eq_getElem hidx]; rfl
+            rw [this]
             exact (hA.mem_iff).1 (List.getElem_mem hidx)
           generalize (coords.getD axis []).getD ((coords.getD axis []).length / 2) 0 = split at hsm ⊢
           have hnext : (axis + 1) % dim < dim := Nat.mod_lt _ (by omega)
